@@ -187,9 +187,15 @@ func (m *ReconcilePod) podCreate(ctx context.Context, pod *corev1.Pod) (reconcil
 		switch prePodENI.Status.Phase {
 		case v1beta1.ENIPhaseUnbind:
 			return m.reConfig(ctx, pod, prePodENI)
-		case v1beta1.ENIPhaseBind:
+		case v1beta1.ENIPhaseBind, v1beta1.ENIPhaseInitial:
 			// check pod uid
+			// (a record of a previous pod instance that never got bound may still have its eni attached
+			// elsewhere: it is taken apart like a bound one, otherwise nothing ever moves it)
 			if prePodENI.Annotations[types.PodUID] == string(pod.UID) {
+				if prePodENI.Status.Phase == v1beta1.ENIPhaseInitial {
+					// the podENI controller is still binding it
+					return reconcile.Result{Requeue: true}, nil
+				}
 				return reconcile.Result{}, nil
 			}
 			// if using fixed ip , unbind it
